@@ -410,3 +410,15 @@ Definition show_lookup (l : lookup) : string :=
   match l with Found i => string_of_nat i | NotFound => "-" | Raised => "!" end.
 Definition show_res (r : res) : string :=
   match r with Some true => "T" | Some false => "F" | None => "!" end.
+
+(* case shards: (model's answer, implementation's answer); only disagreements are printed *)
+Fixpoint mismatches (i : nat) (l : list (string * string)) : list string :=
+  match l with
+  | [] => []
+  | (a, b) :: t =>
+    if String.eqb a b then mismatches (S i) t
+    else (string_of_nat i ++ ":" ++ a ++ "/" ++ b) :: mismatches (S i) t
+  end.
+Definition report (l : list (string * string)) : string :=
+  String.concat "," (firstn 20 (mismatches 0 l)) ++ "|" ++ string_of_nat (length (mismatches 0 l))
+  ++ "|" ++ string_of_nat (length l).
